@@ -710,17 +710,20 @@ def _run(ctx, res):
 
     # the sender's side: whatever _tcp_send reports as sent must have reached the wire whole (a socket's send() may
     # take only part of a large message), so that the receiver applies it
+    # (device names are any text without a space: also names whose UTF-8 form is longer than their character count)
+    NAMES = [None, (("dev0", "key0"), ("ger\u00e4t", "schl\u00fcssel")), (("\u03c3\u03c5\u03c3\u03ba\u03b5\u03c5\u03ae", "k"), ("dev1", "\u043a\u043b\u044e\u0447")),
+             (("a", "b"), ("\U0001f4e1", "\u20ac\u20ac"))]
     for n in (50, 700, 3000, 20000) + (() if ctx.quick else (80000, 400000)):
-        for send_max in (64, 512, 1460):
-            r = S.sender_probe(n, send_max=send_max)
-            res.note_case(("sender", n, send_max), True)
+        for send_max, names in [(64, None), (512, None), (1460, None)] + [(1460, nm) for nm in NAMES[1:]] + [(64, NAMES[1])]:
+            r = S.sender_probe(n, send_max=send_max, names=names)
+            res.note_case(("sender", n, send_max, repr(names)), True)
             res.count("sender_side_messages")
             if r["reported"] == 0 and not r["delivered"]:
                 res.failures.append(dict(
                     signature="reported-sent-but-not-delivered",
                     what="_tcp_send reported success for a %s-byte message of which %d bytes reached the wire (send() takes "
                          "at most %d bytes per call); the receiver applied nothing" % (r["message_bytes"], r["wire_bytes"], send_max),
-                    case=dict(sender=True, text_len=n, send_max=send_max), detail=r))
+                    case=dict(sender=True, text_len=n, send_max=send_max, names=names), detail=r))
             elif r["reported"] != 0:
                 res.errors.append("sender probe: _tcp_send did not succeed on a healthy fake socket: %r" % (r,))
 
@@ -780,7 +783,8 @@ def replay(obj):
     if case.get("streaming"):
         return replay_stream(case)
     if case.get("sender"):
-        r = S.sender_probe(case["text_len"], send_max=case["send_max"])
+        nm = case.get("names")
+        r = S.sender_probe(case["text_len"], send_max=case["send_max"], names=[tuple(x) for x in nm] if nm else None)
         print("real _tcp_send on a socket whose send() takes at most %d bytes per call:" % case["send_max"], r)
         bad = r["reported"] == 0 and not r["delivered"]
         print("reported as sent, but the receiver applied nothing" if bad else "what was reported as sent was applied")
